@@ -5,6 +5,7 @@
 #include <queue>
 #include <string>
 #include <variant>
+#include <atomic>
 #include <vector>
 
 #include "gridkinds.hpp"
@@ -957,5 +958,196 @@ namespace vf
                 }
         }
         return ok;
+    }
+}
+
+// ---------------------------------------------------------------------- C++ flow kernels (for C10 / C16)
+#include "fastscapelib/flow/flow_kernel.hpp"
+
+namespace vf
+{
+    struct KData
+    {
+        const impl_t* impl = nullptr;
+        std::vector<double>* out = nullptr;
+        const std::vector<double>* in = nullptr;
+        std::atomic<long>* calls = nullptr;  // number of kernel function calls (exactly-once monitor)
+        std::vector<std::atomic<int>>* per_node_calls = nullptr;
+    };
+
+    struct KNode
+    {
+        std::size_t idx = 0;
+        double val = 0;
+        double aux = 0;
+    };
+
+    // order-dependent kernel (breadth_upstream / depth_upstream): weighted flow-path length to the
+    // outlet, len(i) = sum_k w_k (len(rec_k) + dist_k), 0 at self-receivers. Reads the outputs of
+    // the receivers: correct only if every receiver was processed before (C06 conditions).
+    // order-independent kernel ("any"): out(i) = 2 in(i) + 1.
+    inline fs::detail::flow_kernel make_kernel(fs::flow_graph_traversal_dir dir, int n_threads, int min_block, int min_level)
+    {
+        fs::detail::flow_kernel k;
+        const bool local = dir == fs::flow_graph_traversal_dir::any;
+        k.node_data_create = []() -> void* { return new KNode(); };
+        k.node_data_free = [](void* p) { delete static_cast<KNode*>(p); };
+        k.node_data_init = [](void* p, void*) { static_cast<KNode*>(p)->aux = 1.0; };
+        k.node_data_getter = [local](std::size_t idx, void* data, void* nd) -> int
+        {
+            auto* D = static_cast<KData*>(data);
+            auto* N = static_cast<KNode*>(nd);
+            N->idx = idx;
+            if (local)
+            {
+                N->val = (*D->in)[idx];
+                return 0;
+            }
+            const impl_t& I = *D->impl;
+            double acc = 0;
+            const auto cnt = I.receivers_count()(idx);
+            for (std::size_t r = 0; r < cnt; ++r)
+            {
+                std::size_t rec = I.receivers()(idx, r);
+                if (rec == idx)
+                    continue;
+                double w = I.receivers_weight()(idx, r);
+                acc += w * ((*D->out)[rec] + I.receivers_distance()(idx, r));
+            }
+            N->val = acc;
+            return 0;
+        };
+        k.func = [local](void* nd) -> int
+        {
+            auto* N = static_cast<KNode*>(nd);
+            if (local)
+                N->val = 2.0 * N->val + N->aux;
+            return 0;
+        };
+        k.node_data_setter = [](std::size_t idx, void* nd, void* data) -> int
+        {
+            auto* D = static_cast<KData*>(data);
+            auto* N = static_cast<KNode*>(nd);
+            (*D->out)[idx] = N->val;
+            if (D->calls)
+                D->calls->fetch_add(1, std::memory_order_relaxed);
+            if (D->per_node_calls)
+                (*D->per_node_calls)[idx].fetch_add(1, std::memory_order_relaxed);
+            return 0;
+        };
+        k.n_threads = n_threads;
+        k.min_block_size = min_block;
+        k.min_level_size = min_level;
+        k.apply_dir = dir;
+        return k;
+    }
+
+    inline std::vector<double> run_kernel(graph_t& graph, fs::flow_graph_traversal_dir dir, int n_threads, int min_block,
+                                          int min_level, const std::vector<double>& in, std::atomic<long>* calls = nullptr,
+                                          std::vector<std::atomic<int>>* per_node = nullptr)
+    {
+        std::vector<double> out(graph.size(), -1.0);
+        KData D;
+        D.impl = &graph.impl();
+        D.out = &out;
+        D.in = &in;
+        D.calls = calls;
+        D.per_node_calls = per_node;
+        fs::detail::flow_kernel_data kd;
+        kd.data = &D;
+        auto k = make_kernel(dir, n_threads, min_block, min_level);
+        graph.apply_kernel(k, kd);
+        return out;
+    }
+
+    // ---------------------------------------------------------------------- state digest (C09 / C10 / C16)
+    struct Digest
+    {
+        std::vector<std::pair<std::string, std::vector<std::uint64_t>>> parts;
+        void add(const std::string& name, std::vector<std::uint64_t> v)
+        {
+            parts.push_back({ name, std::move(v) });
+        }
+        void add_d(const std::string& name, const std::vector<double>& v)
+        {
+            std::vector<std::uint64_t> u(v.size());
+            for (std::size_t i = 0; i < v.size(); ++i)
+                u[i] = std::isnan(v[i]) ? 0x7ff8000000000000ULL : bits(v[i]);
+            add(name, std::move(u));
+        }
+        void add_s(const std::string& name, const std::vector<std::size_t>& v)
+        {
+            add(name, std::vector<std::uint64_t>(v.begin(), v.end()));
+        }
+        // "" when equal, otherwise a description of the first difference
+        std::string diff(const Digest& o) const
+        {
+            if (parts.size() != o.parts.size())
+                return "different number of digest parts";
+            for (std::size_t p = 0; p < parts.size(); ++p)
+            {
+                if (parts[p].first != o.parts[p].first)
+                    return "part name " + parts[p].first + " vs " + o.parts[p].first;
+                auto& a = parts[p].second;
+                auto& b = o.parts[p].second;
+                if (a.size() != b.size())
+                    return parts[p].first + ": size " + std::to_string(a.size()) + " vs " + std::to_string(b.size());
+                for (std::size_t i = 0; i < a.size(); ++i)
+                    if (a[i] != b[i])
+                    {
+                        char buf[160];
+                        std::snprintf(buf, sizeof buf, "%s[%zu]: 0x%llx vs 0x%llx", parts[p].first.c_str(), i,
+                                      static_cast<unsigned long long>(a[i]), static_cast<unsigned long long>(b[i]));
+                        return buf;
+                    }
+            }
+            return "";
+        }
+        std::uint64_t hash() const
+        {
+            Hasher h;
+            for (auto& p : parts)
+            {
+                h.str(p.first);
+                h.vec(p.second);
+            }
+            return h.h;
+        }
+    };
+
+    // meaningful entries of the graph tables (first receivers_count / donors_count entries; donors as
+    // sorted multisets: their storage order is not part of any statement)
+    inline void digest_tables(Digest& D, const GState& S, bool with_bfs = true)
+    {
+        std::vector<std::uint64_t> rec, don;
+        std::vector<double> dist, wgt;
+        for (std::size_t i = 0; i < S.n; ++i)
+        {
+            for (std::size_t k = 0; k < S.rec_count[i] && k < S.W; ++k)
+            {
+                rec.push_back(S.r(i, k));
+                dist.push_back(S.rd(i, k));
+                wgt.push_back(S.rw(i, k));
+            }
+            std::vector<std::size_t> d;
+            for (std::size_t k = 0; k < S.don_count[i] && k < S.DW; ++k)
+                if (S.d(i, k) != i)
+                    d.push_back(S.d(i, k));
+            std::sort(d.begin(), d.end());
+            don.push_back(d.size());
+            for (auto x : d)
+                don.push_back(x);
+        }
+        D.add_s("receivers_count", S.rec_count);
+        D.add("receivers", rec);
+        D.add_d("receivers_distance", dist);
+        D.add_d("receivers_weight", wgt);
+        D.add("donors(distinct,sorted)", don);
+        D.add_s("dfs_indices", S.dfs);
+        if (with_bfs)
+        {
+            D.add_s("bfs_indices", S.bfs);
+            D.add_s("bfs_levels", S.levels);
+        }
     }
 }
